@@ -148,9 +148,9 @@ Open Scope Q_scope.
 
 (* em, ex, ch on a length property: the element's own font size *)
 Theorem C06_em_against_own_font_size e v :
-  px_is (length e None (LDim v Em)) (v * own_fs e) /\
-  px_is (length e None (LDim v Ex)) (v * own_fs e * ex_ratio e) /\
-  px_is (length e None (LDim v Ch)) (v * own_fs e * ch_ratio e).
+  px_is (length e false None (LDim v Em)) (v * own_fs e) /\
+  px_is (length e false None (LDim v Ex)) (v * own_fs e * ex_ratio e) /\
+  px_is (length e false None (LDim v Ch)) (v * own_fs e * ch_ratio e).
 Proof. exact (conj (em_against_own_font_size e v) (ex_ch_against_own_font_size e v)). Qed.
 Print Assumptions C06_em_against_own_font_size.
 
@@ -161,34 +161,29 @@ Theorem C06_font_size_em_against_parent e parent v :
 Proof. exact (conj (font_size_em_against_parent e parent v) (font_size_percent_against_parent e parent v)). Qed.
 Print Assumptions C06_font_size_em_against_parent.
 
-(* rem: the root element's font size; in the root element's own font-size: the initial value *)
-Theorem C06_rem_against_root e fs v own exr chr parent (is_root : bool) doc_root :
-  px_is (length e fs (LDim v Rem)) (v * root_fs e) /\
-  some_is (font_size {| own_fs := own; root_fs := root_font_size_for is_root doc_root;
-                        ex_ratio := exr; ch_ratio := chr |} parent (FDim v Rem))
-          (v * (if is_root then 16 else doc_root)).
+(* rem: the computed font size of the root element, in every length property of every element - the root element
+   included (element_env = what set_computed_styles gives the element; on the root, doc_root is its own size);
+   in the root element's own font-size property: the initial 16px *)
+Theorem C06_rem_against_root (root : bool) own doc_root exr chr parent v :
+  (root = true -> doc_root == own) ->
+  px_is (length (element_env root own doc_root exr chr) false None (LDim v Rem)) (v * doc_root) /\
+  some_is (font_size (element_env root own doc_root exr chr) parent (FDim v Rem))
+          (v * (if root then 16 else doc_root)).
 Proof.
-  exact (conj (rem_against_root e fs v) (font_size_rem_against_root own exr chr parent is_root doc_root v)).
+  exact (fun H => conj (rem_in_length_properties root own doc_root exr chr v H)
+                       (font_size_rem_against_root own exr chr parent root doc_root v)).
 Qed.
 Print Assumptions C06_rem_against_root.
 
-(* FINDING (replayed on the implementation by the stream values-render, signature c06-rem-on-root-element):
-   on the root element itself rem is resolved against the initial 16px in every property, not only in font-size:
-   html { font-size: 10px; margin-left: 2rem } computes margin-left to 32px, CSS Values 3 5.1.1 says 20px *)
-Theorem C06_rem_on_root_element_refuted :
-  exists own v, ~ px_is (length (element_env true own own (1 # 2) (1 # 2)) None (LDim v Rem)) (v * own).
-Proof. exact rem_on_root_element_refuted. Qed.
-Print Assumptions C06_rem_on_root_element_refuted.
-
 (* absolute units: 1in = 96px = 72pt = 6pc = 2.54cm = 25.4mm = 101.6q *)
-Theorem C06_absolute_units e fs v u f :
-  (to_pixels u = Some f -> px_is (length e fs (LDim v u)) (v * f)) /\
+Theorem C06_absolute_units e b fs v u f :
+  (to_pixels u = Some f -> px_is (length e b fs (LDim v u)) (v * f)) /\
   to_pixels In_ = Some 96 /\
   (exists f, to_pixels Pt = Some f /\ f * 72 == 96) /\ (exists f, to_pixels Pc = Some f /\ f * 6 == 96) /\
   (exists f, to_pixels Cm = Some f /\ f * (254 # 100) == 96) /\
   (exists f, to_pixels Mm = Some f /\ f * (254 # 10) == 96) /\
   (exists f, to_pixels Qu = Some f /\ f * (1016 # 10) == 96).
-Proof. exact (conj (absolute_units e fs v u f) unit_table_exact). Qed.
+Proof. exact (conj (absolute_units e b fs v u f) unit_table_exact). Qed.
 Print Assumptions C06_absolute_units.
 
 (* larger / smaller: monotone in the parent's size, strictly larger / smaller and positive *)
